@@ -169,7 +169,8 @@ class Ctx:
     def check_iff(self, got, spec, what, witness=None):
         """got <=> spec, decided by forking on `got` (the linear store then settles XOR-system equivalences)."""
         if not isinstance(got, SBool):
-            return self.check(spec if got else ~spec if isinstance(spec, SBool) else (not spec), what, witness)
+            self.reach("iff:true" if got else "iff:false")
+            return self.check(spec if got else (~spec if isinstance(spec, SBool) else (not spec)), what + (" [=>]" if got else " [<=]"), witness)
         if bool(got):
             self.reach("iff:true")
             return self.check(spec, what + " [=>]", witness)
